@@ -19,7 +19,8 @@ RULE = ("cases = (type expression, column position first/middle/last, following 
         "ARRAY suffix, two-word) and the recursive grammar T ::= leaf | ARRAY<T> | MAP<leaf,T> | STRUCT<f:T,...> (also 'f T', "
         "'f: T') enumerated exhaustively to depth 2 and sampled to depth 3 (quick) / 5 (thorough), every inner comma with/without a "
         "blank, brackets glued or spaced, constructor names upper/lower case. Non-trivial = the type has a size, a suffix, two "
-        "words or brackets (all cases); distinct = distinct (DDL, mode).")
+        "words or brackets (all cases); distinct = distinct (DDL, mode)."
+        " Added after seeded defects: size x array-suffix product, zero sizes, the type placed inside hive PARTITIONED BY (...) lists.")
 ASSUMPTIONS = ["leaves inside <...> are plain type names (no (n) inside angle brackets)", "type strings are compared after removing white space",
                "calibrated conventions: 'x ARRAY' is reported as 'x[]', 'varchar(10)[]' as type 'varchar[]' size 10, (n CHAR) as size 'n CHAR'"]
 MIN_EVENTS = {"statements": 100, "run_return": 100}
